@@ -819,7 +819,9 @@ func newHdSystem(t *testing.T, backends []hdBackendCfg) *hdSystem {
 	}
 	s.mcu = &hdMcu{}
 	h.SetMcu(s.mcu)
-	s.server = httptest.NewServer(r)
+	s.server = httptest.NewUnstartedServer(r)
+	s.server.Listener = &hdCountListener{Listener: s.server.Listener}
+	s.server.Start()
 
 	// the hub's main loop without its tickers
 	go func() {
@@ -1045,6 +1047,101 @@ func (s *hdSystem) foreignRoomSession(id string, b int) bool {
 	return sess.Backend().Id() != fmt.Sprintf("backend%d", b)
 }
 
+// hdCountConn is the server's end of a client connection: it counts the server's writes so that they can be made to
+// fail from the k-th write on (one websocket frame of the sizes used here is one write); at that moment the write half
+// of the socket is shut, as breakWrites does at once.
+type hdCountConn struct {
+	net.Conn
+	mu    sync.Mutex
+	armed bool
+	left  int // writes that still succeed once armed
+	dead  bool
+}
+
+func (c *hdCountConn) Write(b []byte) (int, error) {
+	c.mu.Lock()
+	if c.dead {
+		c.mu.Unlock()
+		return 0, net.ErrClosed
+	}
+	if c.armed {
+		if c.left <= 0 {
+			c.dead = true
+			c.mu.Unlock()
+			if tcp, ok := c.Conn.(*net.TCPConn); ok {
+				tcp.CloseWrite() // nolint
+			}
+			return 0, net.ErrClosed
+		}
+		c.left--
+	}
+	c.mu.Unlock()
+	return c.Conn.Write(b)
+}
+
+type hdCountListener struct{ net.Listener }
+
+func (l *hdCountListener) Accept() (net.Conn, error) {
+	c, err := l.Listener.Accept()
+	if err != nil {
+		return nil, err
+	}
+	cc := &hdCountConn{Conn: c}
+	hdCountConns.Lock()
+	if len(hdCountConns.m) > 4096 {
+		hdCountConns.m = map[string]*hdCountConn{}
+	}
+	hdCountConns.m[c.RemoteAddr().String()] = cc
+	hdCountConns.Unlock()
+	return cc, nil
+}
+
+func (s *hdSystem) serverClient(idx int) *Client {
+	var target *Client
+	s.hub.mu.RLock()
+	for _, hc := range s.hub.clients {
+		if cl, ok := hc.(*Client); ok && s.connIndex(cl) == idx {
+			target = cl
+		}
+	}
+	s.hub.mu.RUnlock()
+	return target
+}
+
+// failWritesAfter: the server's next k writes to connection idx succeed, every later one fails (the server keeps
+// reading: it still believes the client connected). For a connection that has no session yet the server-side client
+// is not in the hub's table: it is found among the connections accepted by the listener through the harness's own
+// end (local address of the client = remote address of the server's socket).
+func (s *hdSystem) failWritesAfter(idx, k int) bool {
+	c := s.clients[idx]
+	if c == nil {
+		return false
+	}
+	want := c.conn.LocalAddr().String()
+	l, _ := s.server.Listener.(*hdCountListener)
+	if l == nil {
+		return false
+	}
+	hdCountConns.Lock()
+	cc := hdCountConns.m[want]
+	hdCountConns.Unlock()
+	if cc == nil {
+		return false
+	}
+	c.mu.Lock()
+	c.half = true
+	c.mu.Unlock()
+	cc.mu.Lock()
+	cc.armed, cc.left = true, k
+	cc.mu.Unlock()
+	return true
+}
+
+var hdCountConns = struct {
+	sync.Mutex
+	m map[string]*hdCountConn
+}{m: map[string]*hdCountConn{}}
+
 // breakWrites shuts the write half of the server's socket of connection idx: from now on every write of
 // the server to it fails, while the server keeps reading (it still believes the client connected).
 func (s *hdSystem) breakWrites(idx int) bool {
@@ -1071,7 +1168,11 @@ func (s *hdSystem) breakWrites(idx int) bool {
 	if target.conn == nil {
 		return false
 	}
-	tcp, ok := target.conn.UnderlyingConn().(*net.TCPConn)
+	under := target.conn.UnderlyingConn()
+	if cc, ok := under.(*hdCountConn); ok {
+		under = cc.Conn
+	}
+	tcp, ok := under.(*net.TCPConn)
 	if !ok {
 		return false
 	}
